@@ -362,12 +362,37 @@ func (w *World) isErrorStruct(t types.Type) bool {
 	return types.Implements(t, errT) || types.Implements(types.NewPointer(t), errT)
 }
 
+// perCallState: struct types that exist only for the duration of one formatting / printing call
+// (created by the engine itself); the slices they hold are their own (A18.1).
+func perCallState(t types.Type) bool {
+	s := t.String()
+	return strings.HasSuffix(s, "errbase.state") || strings.HasSuffix(s, "errbase.printer") || strings.HasSuffix(s, "errbase.safePrinter")
+}
+
 func (ex *Ex) frameStoreCheck(fr *Frame, st *State, ins ssa.Instruction, l *Loc) {
 	what := "store through a pointer that is neither allocated in this call nor a declared output"
 	if l.Pointee != nil {
 		what += " (pointee " + ex.W.shortType(l.Pointee) + ")"
 	}
-	ex.oblige(fr, st, ex.obName(fr, "frame", ins), "frame", []string{"C18"}, "read-only frame: "+what, ex.frameOwned(st, l.Ref), posOf(ins))
+	goal := ex.frameOwned(st, l.Ref)
+	// a declared output licenses writes to the object's own fields, not to what its slice fields
+	// refer to: an element write through a slice stored in the object needs the slice itself to be
+	// owned (structural rule on the store's address), unless the object is per-call engine state
+	elem := false
+	for _, stp := range l.Path {
+		if stp.IsSliceElem {
+			elem = true
+		}
+	}
+	if elem && l.Pointee != nil && !perCallState(l.Pointee) {
+		if sti, ok := ins.(*ssa.Store); ok {
+			if owned, why := ex.W.ownedRootStrict(sti.Addr); !owned {
+				goal = Not(App("alloc0", SBool, l.Ref))
+				what = "element write through a slice held by an object that this call does not own (" + why + ")"
+			}
+		}
+	}
+	ex.oblige(fr, st, ex.obName(fr, "frame", ins), "frame", []string{"C18"}, "read-only frame: "+what, goal, posOf(ins))
 }
 
 func (ex *Ex) frameMapCheck(fr *Frame, st *State, ins ssa.Instruction, m *T) {
@@ -653,4 +678,50 @@ func contentSym(bt types.Type) string {
 		return "f$bbContent"
 	}
 	return "f$sbContent"
+}
+
+// redactableConversionSink: a conversion of a plain string / byte slice to redact.RedactableString
+// / RedactableBytes DECLARES the text to be a redactable string. Under C03 the text must keep its
+// PII inside markers (rsafe); under C06 it must be a well-formed redactable fragment (wfR).
+// Conversions whose result is only stripped of its markers again declare nothing and are skipped.
+func (ex *Ex) redactableConversionSink(fr *Frame, st *State, x *ssa.ChangeType) {
+	tn := x.Type().String()
+	if !strings.HasSuffix(tn, "redact.RedactableString") && !strings.HasSuffix(tn, "redact.RedactableBytes") && !strings.HasSuffix(tn, "markers.RedactableString") && !strings.HasSuffix(tn, "markers.RedactableBytes") {
+		return
+	}
+	if x.X.Type().String() == x.Type().String() {
+		return
+	}
+	if ex.OnlyKinds != nil && !ex.OnlyKinds["redactable"] {
+		return
+	}
+	if refs := x.Referrers(); refs != nil {
+		onlyStrip := len(*refs) > 0
+		for _, r := range *refs {
+			c, ok := r.(*ssa.Call)
+			if !ok || c.Call.StaticCallee() == nil || c.Call.StaticCallee().Name() != "StripMarkers" {
+				if _, isDbg := r.(*ssa.DebugRef); isDbg {
+					continue
+				}
+				onlyStrip = false
+			}
+		}
+		if onlyStrip {
+			return
+		}
+	}
+	v := ex.termOf(fr, st, ex.val(fr, st, x.X), x.X.Type())
+	if v == nil {
+		return
+	}
+	text := v
+	if !v.S.Eq(SString) {
+		text = App("stringOf$"+v.S.Mangle(), SString, v)
+	}
+	if ex.Props == nil || ex.Props["C03"] {
+		ex.oblige(fr, st, ex.obName(fr, "redactable", x), "redactable", []string{"C03"}, "text converted to a redactable string keeps its PII-bearing parts inside redaction markers", App("f$rsafe", SBool, text), x.Pos())
+	}
+	if ex.Props == nil || ex.Props["C06"] {
+		ex.oblige(fr, st, ex.obName(fr, "redactable", x)+".wf", "redactable", []string{"C06"}, "text converted to a redactable string is a well-formed redactable fragment", App("f$wfR", SBool, text), x.Pos())
+	}
 }
